@@ -57,24 +57,44 @@ def cases(draw):
                 {'kind': k(), 'dir': d(), 'deps': [1], 'whole': []},
                 {'kind': k(), 'dir': d(), 'deps': [1], 'whole': []}]
         nlib = draw(st.integers(4, 6))
+    reserved = set()
+    if not libs and draw(st.integers(0, 4)) == 0:
+        reserved = {0, 1}       # used by the bundle only
+        # a shared library bundling two static ones as whole archives
+        libs = [{'kind': 'static', 'dir': draw(st.sampled_from(DIRS)),
+                 'deps': [], 'whole': []},
+                {'kind': 'static', 'dir': draw(st.sampled_from(DIRS)),
+                 'deps': [], 'whole': []},
+                {'kind': draw(st.sampled_from(['shared', 'versioned'])),
+                 'dir': draw(st.sampled_from(DIRS)), 'deps': [0, 1],
+                 'whole': [0, 1]}]
+        nlib = draw(st.integers(3, 5))
     for i in range(len(libs), nlib):
         kind = draw(st.sampled_from(['static', 'static', 'shared', 'shared',
                                      'dual', 'versioned']))
-        ndeps = draw(st.integers(0, min(3, i)))
-        deps = draw(st.lists(st.integers(0, i - 1), min_size=ndeps,
-                             max_size=ndeps, unique=True)) if i else []
+        cands = [k for k in range(i) if k not in reserved]
+        ndeps = draw(st.integers(0, min(3, len(cands))))
+        deps = draw(st.lists(st.sampled_from(cands), min_size=ndeps,
+                             max_size=ndeps, unique=True)) if cands else []
         deps = list(draw(st.permutations(deps)))
         libs.append({'kind': kind, 'dir': draw(st.sampled_from(DIRS)),
                      'deps': deps,
+                     # code that needs libm: the library says so through
+                     # link_options, its consumers must get the option
+                     'mopt': draw(st.integers(0, 1 if kind == 'dual'
+                                              else 7)) == 0,
                      'whole': [d for d in deps if libs[d]['kind'] == 'static'
                                and draw(st.integers(0, 5)) == 0]})
     exes = []
+    if len(libs) >= 3 and libs[2]['whole'] == [0, 1]:
+        exes.append({'dir': draw(st.sampled_from(DIRS)), 'deps': [2]})
     if len(libs) >= 4 and libs[2]['deps'] == [1] and libs[3]['deps'] == [1]:
         exes.append({'dir': draw(st.sampled_from(DIRS)),
                      'deps': list(draw(st.permutations([2, 3])))})
     for j in range(draw(st.integers(1, 3))):
-        ndeps = draw(st.integers(1, min(3, nlib)))
-        deps = draw(st.lists(st.integers(0, nlib - 1), min_size=ndeps,
+        cands = [k for k in range(nlib) if k not in reserved]
+        ndeps = draw(st.integers(1, min(3, len(cands))))
+        deps = draw(st.lists(st.sampled_from(cands), min_size=ndeps,
                              max_size=ndeps, unique=True))
         exes.append({'dir': draw(st.sampled_from(DIRS)),
                      'deps': list(draw(st.permutations(deps)))})
@@ -103,6 +123,22 @@ def value(case, i, memo=None):
     return memo[i]
 
 
+def whole_symbols(case, exe):
+    """Libraries whose every member the executable may use because a shared
+    library it links took them in as whole archives."""
+    out = []
+    for i in exe['deps']:
+        lib = case['libs'][i]
+        if lib['kind'] in ('shared', 'versioned'):
+            out += [d for d in lib['whole'] if d not in out]
+    return out
+
+
+def exe_value(case, exe):
+    return 1000 + sum(value(case, d) for d in exe['deps']) + \
+        sum(100000 * (d + 1) for d in whole_symbols(case, exe))
+
+
 def render(case, src):
     L = ["project('c14', version='1.0')"]
     for i, lib in enumerate(case['libs']):
@@ -112,10 +148,20 @@ def render(case, src):
         # dependents reach the library through h_<i>, which lives in a
         # second object that the program itself never refers to
         body = ''.join('int h_{}(void);\n'.format(d) for d in lib['deps'])
-        body += 'int g_{0} = {1};\nint f_{0}(void) {{ return g_{0}{2}; }}\n' \
+        m = ''
+        if lib.get('mopt'):
+            body = '#include <math.h>\nvolatile double vg_{} = 4.0;\n'.format(
+                i) + body
+            m = ' + ((int)sqrt(vg_{}) - 2)'.format(i)
+        body += 'int g_{0} = {1};\nint f_{0}(void) {{ return g_{0}{2}{3}; }}\n' \
             .format(i, i + 1, ''.join(' + h_{}()'.format(d)
-                                      for d in lib['deps']))
+                                      for d in lib['deps']), m)
         sandbox.write_file(os.path.join(src, 'l{}.c'.format(i)), body)
+        # a third object nothing in the project's libraries refers to: only
+        # a whole-archive link carries it along
+        sandbox.write_file(
+            os.path.join(src, 'l{}_w.c'.format(i)),
+            'int w_{0}(void) {{ return {1}; }}\n'.format(i, 100000 * (i + 1)))
         sandbox.write_file(
             os.path.join(src, 'l{}_b.c'.format(i)),
             'int f_{0}(void);\nint h_{0}(void) {{ return f_{0}(); }}\n'
@@ -128,13 +174,19 @@ def render(case, src):
         extra = ''
         if lib['kind'] == 'versioned':
             extra = ", version='1.2.3', soversion='1'"
-        L.append("v{0} = {1}({2!r}, ['l{0}.c', 'l{0}_b.c']{3}{4})".format(
+        if lib.get('mopt'):
+            extra += ", link_options=['-Wl,--no-as-needed', '-lm']"
+        L.append("v{0} = {1}({2!r}, ['l{0}.c', 'l{0}_b.c', 'l{0}_w.c']{3}{4})"
+                 .format(
             i, fn, name, ', libs=[{}]'.format(deps) if deps else '', extra))
     for j, exe in enumerate(case['exes']):
         body = '#include <stdio.h>\n'
         body += ''.join('int f_{}(void);\n'.format(d) for d in exe['deps'])
-        body += 'int main(void) {{ printf("%d\\n", 1000{}); return 0; }}\n' \
-            .format(''.join(' + f_{}()'.format(d) for d in exe['deps']))
+        ws = whole_symbols(case, exe)
+        body += ''.join('int w_{}(void);\n'.format(d) for d in ws)
+        body += 'int main(void) {{ printf("%d\\n", 1000{}{}); return 0; }}\n' \
+            .format(''.join(' + f_{}()'.format(d) for d in exe['deps']),
+                    ''.join(' + w_{}()'.format(d) for d in ws))
         sandbox.write_file(os.path.join(src, 'm{}.c'.format(j)), body)
         name = (exe['dir'] + '/' if exe['dir'] else '') + 'prog{}'.format(j)
         L.append("executable({!r}, ['m{}.c'], libs=[{}])".format(
@@ -161,6 +213,10 @@ def prop_link(rec):
             labs.add('kind:' + l['kind'])
         if any(l['whole'] for l in libs):
             labs.add('whole-archive')
+        if any(len(l['whole']) >= 2 for l in libs):
+            labs.add('two-whole-archives-in-one-link')
+        if any(l.get('mopt') for l in libs):
+            labs.add('library-link-option')
         rec.case(labs, nontrivial=(shape(case) if static_with_deps and
                                    len(dirs) >= 2 else None), sample=case)
         with sandbox.scratch('c14') as tmp:
@@ -185,7 +241,7 @@ def prop_link(rec):
             for phase in ('in-place', 'moved'):
                 for j, exe in enumerate(case['exes']):
                     p = os.path.join(where, exe['dir'], 'prog{}'.format(j))
-                    want = 1000 + sum(value(case, d) for d in exe['deps'])
+                    want = exe_value(case, exe)
                     try:
                         out = subprocess.run([p], env={}, cwd='/',
                                              stdout=subprocess.PIPE,
